@@ -20,13 +20,13 @@ from __future__ import annotations
 
 import ast
 
-from core.guards import FALSE, TRUE, Formula, atom, atoms_of, f_and, f_not, f_or, show
+from core.guards import TRUE, Formula, atom, atoms_of, f_and, f_not, f_or, show
 from core.loader import AnalysisError, ClassInfo, FuncInfo, Repo, ancestors, header, norm, own_nodes, parent
 from core.report import Result
 from core.types import members
 
 from . import c13_sym as S
-from .c13_sym import Coll, Const, Opq, Phi, Ref, exception_bases, exception_class_name, implies, implies_path, is_assertion_error, key, sat, sat_path
+from .c13_sym import Coll, Const, Opq, Phi, Ref, exception_class_name, implies_path, is_assertion_error, key, sat_path
 from .common import callees_of, conds, dotted, reachable_funcs, types_of, where
 
 PKG = "pytestarch"
@@ -459,7 +459,7 @@ def run_layer_rule(ctx: Ctx, res: Result) -> None:
     p = an.param_names[1]
     sym = ctx.run(an)
     rets = [o for o in sym.outcomes if o.kind == "return"]
-    ok, detail = False, f"are_named() never uses a requested layer name as a raising subscript of the layer definition: a rule naming a layer that was never defined gets a verdict"
+    ok, detail = False, "are_named() never uses a requested layer name as a raising subscript of the layer definition: a rule naming a layer that was never defined gets a verdict"
     for ev in sym.events:
         if ev.kind != "subscript" or not ev.args:
             continue
@@ -474,7 +474,7 @@ def run_layer_rule(ctx: Ctx, res: Result) -> None:
         if idx.kind == "param":
             good = all(must(o.path, ev.path) for o in rets)
         else:
-            loops = [lc for lc in ev.loops if lc.elem is not None and lc.elem.key == idx.key.split("[")[0] or (lc.elem is not None and idx.key.startswith(lc.elem.key))]
+            loops = [lc for lc in ev.loops if lc.elem is not None and idx.key.startswith(lc.elem.key)]
             good = bool(loops) and loops[0].elem.meta and loops[0].elem.meta[0] == p and all(must(o.path, loops[0].pre_path) for o in rets) and must(tuple(loops[0].pre_path) + (loops[0].iter_atom,), ev.path)
         if good:
             ok, detail = True, f"each requested layer name is looked up with `{norm(ev.node, 50)}` (KeyError for an undefined layer) on every path"
@@ -569,7 +569,8 @@ def run_entry_point(ctx: Ctx, res: Result) -> None:
     needed = ["root_path", "module_path", "exclusions", "exclude_external_libraries", "regex_exclusions", "external_exclusions", "regex_external_exclusions"]
     if any(p not in params for p in needed):
         raise AnalysisError(f"public signature of get_evaluable_architecture changed: {params}")
-    sym = ctx.run(ge, descend=lambda caller, callee: callee.module is ge.module)
+    # helpers of the entry point are followed wherever they live; the scan / graph machinery itself is not interpreted
+    sym = ctx.run(ge, descend=lambda caller, callee: callee.module is ge.module or "eval_structure" not in callee.module.name)
     rets = [o for o in sym.outcomes if o.kind in ("return", "verdict")]
     if not rets:
         res.undecide("C13.R2", f"{ge.relpath}::get_evaluable_architecture::returns", "no normal return found in the symbolic run", where(ge, ge.node))
